@@ -11,6 +11,7 @@ type verifServerHooks struct {
 	SuppressDowngradeCanary bool
 	ForceSuiteTLS13         uint16
 	TolerateCookieEcho      bool
+	ForceCurveTLS12         CurveID
 }
 
 func verifServerHook(c *Conn) *verifServerHooks { return nil }
